@@ -837,6 +837,8 @@ class X12ContextReader(object):
                     self._reset_counter_to_gs_counts()
                     tpath = '/ISA_LOOP/GS_LOOP/GS'
                     self.x12_map_node = cur_map.getnodebypath(tpath)
+                    # GS is not found by the walker, so say ourselves that it opens GS_LOOP
+                    push_loops = [self.x12_map_node.parent]
                     #self.walker.forceWalkCounterToLoopStart('/ISA_LOOP/GS_LOOP', '/ISA_LOOP/GS_LOOP/GS')
                 elif seg_id == 'BHT':
                     if vriic in ('004010X094', '004010X094A1'):
